@@ -180,9 +180,10 @@ PROPS["C09"] = {
     "technique": "Rocq refinement proof + totality lemmas + differential correspondence on arbitrary / mutated streams",
     "tie_files": ["Tie/BytesAgree.v", "Tie/ClientAgree.v"],
     "props_file": "Props/C09.v",
-    "eval_modules": ["Run.EvalClient"],
+    "eval_modules": ["Run.EvalClient", "Run.EvalConfig"],
     "imports": ["XS.Lib.Bufio", "XS.Spec.ClientOps"],
-    "kinds": {"client": CLIENT_KIND},
+    "kinds": {"client": CLIENT_KIND,
+              "ocunm": {"type": "case_ocunm", "chk": "chk_ocunm", "sig": "sig_ocunm", "scope": "N_scope"}},
     "rule": CLIENT_RULE + "C09 generators: arbitrary protocol-heavy byte streams, uniformly random bytes, grammar-mutated valid traffic, bit-flipped windows of the five recorded captures, extended-length measurement messages whose packets tile 256 bytes; the documented loop run adaptively to the terminal error (three more receives after it), scanning also after rejected frames and after false steps",
     "trusted": CLIENT_TRUSTED,
     "assumptions": ["the reader always answers (a blocked Read is outside the model)"],
